@@ -32,6 +32,7 @@ func Harness(prop string) func(ctx *common.Ctx) error {
 		for i := 0; i < n; i++ {
 			cfg.K = 2 + ctx.Rng.Pick(2)
 			cfg.Disciplined = i%2 == 0
+			cfg.Bulk = i%4 >= 2
 			ctx.Current(fmt.Sprintf("history #%d seed=%d", i, ctx.Seed), nil)
 			run, err := RunHistory(ctx.Rng, cfg)
 			if run != nil && len(run.Hist) > 0 {
@@ -49,6 +50,7 @@ func Harness(prop string) func(ctx *common.Ctx) error {
 			}
 			res.Count(fmt.Sprintf("sessions:%d", run.K))
 			res.Count(fmt.Sprintf("disciplined:%v", cfg.Disciplined))
+			res.Count(fmt.Sprintf("idle-bulk:%v", cfg.Bulk))
 			if i < 2 {
 				res.Sample(map[string]interface{}{"history": HistString(run.Hist), "steps": len(run.Hist)})
 			}
